@@ -47,10 +47,15 @@ pub fn workbook(b: &Value) -> Value {
     let merges = |m: &Value| -> Vec<String> { m.as_array().unwrap().iter().map(|x| ref_text(p2(&x["a"]), p2(&x["b"]))).collect() };
     let tsheet = cfg["sheet"].as_u64().unwrap();
     // cfg.prefix: namespace prefix on every spreadsheetml element of the workbook and sheet parts
-    json!({"prefix": cfg["prefix"].as_str().unwrap_or(""), "sheets": [
+    // (prefixed variant: a chartsheet comes first, so sheet indexes and worksheet indexes differ)
+    let chart = "<chartsheet xmlns=\"http://schemas.openxmlformats.org/spreadsheetml/2006/main\"><sheetViews><sheetView workbookViewId=\"0\"/></sheetViews></chartsheet>";
+    let mut sheets = if cfg["prefix"] == "x" { vec![json!({"name": "Chart1", "file": "sheet9.xml", "dir": "chartsheets", "raw": chart, "tokens": []})] } else { vec![] };
+    let rest = json!({"prefix": cfg["prefix"].as_str().unwrap_or(""), "sheets": [
         {"name": "S1", "file": "sheet1.xml", "tokens": grid_tokens(false), "merge": merges(&b["merges1"]), "tables": if tsheet == 1 { table.clone() } else { json!([]) }},
         {"name": "S2", "file": "sheet2.xml", "tokens": grid_tokens(cfg["s2empty"].as_bool().unwrap()), "merge": merges(&b["merges2"]), "tables": if tsheet == 2 { table } else { json!([]) }},
-    ]})
+    ]});
+    sheets.extend(rest["sheets"].as_array().unwrap().iter().cloned());
+    json!({"prefix": rest["prefix"], "sheets": sheets})
 }
 
 fn dims_json(d: &Dimensions) -> Value {
@@ -152,7 +157,7 @@ fn check(bytes: &[u8], b: &Value) -> Result<(), String> {
         if got2 != want {
             return Err(format!("worksheet_merge_cells({}) = {} expected {}", name, json!(got2), json!(want)));
         }
-        let idx = if name == "S1" { 0 } else { 1 };
+        let idx = (if name == "S1" { 0 } else { 1 }) + if cfg["prefix"] == "x" { 1 } else { 0 };
         let got3: Vec<Value> = match wb.worksheet_merge_cells_at(idx) {
             Some(Ok(v)) => v.iter().map(dims_json).collect(),
             _ => return Err("worksheet_merge_cells_at failed".into()),
